@@ -20,11 +20,13 @@ import (
 // C16 writes `c16` lines (the built script only).
 
 func init() {
+	// C04 re-loads every printed script (about 0.5 ms each with the memoizing parser), so its quick
+	// tier enumerates length <= 5 and samples length 6; C16 only builds and enumerates length <= 6.
 	props["C04"] = func(g *Gen) {
-		genC04(g, c04Case)
+		genC04(g, c04Case, g.pick(5, 6), 16)
 		genC04b(g)
 	}
-	props["C16"] = func(g *Gen) { genC04(g, c16Case) }
+	props["C16"] = func(g *Gen) { genC04(g, c16Case, 6, 8) }
 	replays["C04"] = func(g *Gen, f []string) {
 		if len(f) >= 2 && f[0] == "c04b" {
 			c04bCase(g, f[1])
@@ -488,13 +490,12 @@ func c04Runs(g *Gen, steps int) addchain.Program {
 	return p
 }
 
-func genC04(g *Gen, emit func(g *Gen, p addchain.Program)) {
+func genC04(g *Gen, emit func(g *Gen, p addchain.Program), maxLen, sample7 int) {
 	// the one-element chain
 	emit(g, addchain.Program{})
 	g.Count("empty")
 
 	// every duplicate-free program up to the bound, both operand orders
-	maxLen := g.pick(6, 6)
 	for n := 1; n <= maxLen; n++ {
 		c04Enum(g, n, 0, func(p addchain.Program) {
 			emit(g, p)
@@ -502,9 +503,14 @@ func genC04(g *Gen, emit func(g *Gen, p addchain.Program)) {
 		})
 	}
 	if g.Thorough {
-		c04Enum(g, 7, 8, func(p addchain.Program) {
+		c04Enum(g, 7, sample7, func(p addchain.Program) {
 			emit(g, p)
 			g.Count("sampled-len7")
+		})
+	} else if maxLen < 6 {
+		c04Enum(g, 6, 8, func(p addchain.Program) {
+			emit(g, p)
+			g.Count("sampled-len6")
 		})
 	}
 
